@@ -10,7 +10,8 @@
 //   small32 <init> <hex> / small64 ...  -> HAVE_SMALL implementation (crc32_small.c / crc64_small.c)
 //   smalltab32 / smalltab64             -> the 256 table entries those files generate at run time
 //   huge <fn> <size> <seed>             -> "<one call over the whole buffer> <same buffer in ~1 GiB pieces>" for
-//                                           fn = crc32pub|crc32arch|crc32gen|crc64pub|crc64arch|crc64gen|check1|check4|sha256 (one call only):
+//                                           fn = crc32pub|crc32arch|crc32gen|crc64pub|crc64arch|crc64gen|check1|check4|sha256 (one call only)|
+//                                           sha256p (lzma_sha256_update in 64 MiB pieces only):
 //                                           a (4 GiB + 16 KiB) MAP_NORESERVE mapping, 8 KiB of xorshift bytes at the
 //                                           start and at the end of the first <size> bytes, zeros in between
 #include "hproto.h"
@@ -87,6 +88,21 @@ static void do_huge(hp_line *l)
 			pos += n;
 		}
 		printf("%" PRIu64 " %" PRIu64 "\n", one, pcs);
+	} else if (!strcmp(fn, "sha256p")) {
+		// streamed: lzma_sha256_update in (64 MiB + 4097)-byte pieces (the bit-length field of the padding depends on
+		// the total only; lengths around 2^29 and 2^32 exercise the carry between its 32-bit halves)
+		lzma_check_state a;
+		memset(&a, 0xAA, sizeof(a));
+		lzma_sha256_init(&a);
+		const size_t piece = (size_t)64 * 1024 * 1024 + 4097;
+		for (size_t pos = 0; pos < size; ) {
+			size_t n = size - pos < piece ? size - pos : piece;
+			lzma_sha256_update(m + pos, n, &a);
+			pos += n;
+		}
+		lzma_sha256_finish(&a);
+		hp_put_hex(a.buffer.u8, 32);
+		putchar('\n');
 	} else if (!strcmp(fn, "sha256") || !strcmp(fn, "check1") || !strcmp(fn, "check4") || !strcmp(fn, "check10")) {
 		lzma_check id = !strcmp(fn, "check1") ? LZMA_CHECK_CRC32 : !strcmp(fn, "check4") ? LZMA_CHECK_CRC64 : LZMA_CHECK_SHA256;
 		lzma_check_state a, b;
